@@ -93,6 +93,7 @@ def run(ctx):
             n_ok, stats = ctx.judge("reobserve", cases, classify)
             tot = dict(stats)
             kinds = {}
+            burst_sampled = False
             with open(cases) as f:
                 for ln in f:
                     p = ln.split(" ", 2)
@@ -105,6 +106,9 @@ def run(ctx):
                         if len(samples) < 2 and "fill=50" in ln:
                             samples.append(ln.strip())
                     if p[0] in ("req", "tick", "drain") and len(samples) < 6 and total % 97 == 3:
+                        samples.append(ln.strip()[:300])
+                    if p[0] == "burst" and not burst_sampled and " d=00000 " in ln:
+                        burst_sampled = True
                         samples.append(ln.strip()[:300])
             ctx.cov["generator_distribution"] = kinds
             ctx.cov["distinct_nontrivial"] += n_ok
@@ -128,7 +132,8 @@ def run(ctx):
     ctx.cov["samples"] += samples
     # ---- 3. the caller named in the anchors (processor/cleanup.go): a retry tick posts its re-observation request without
     # blocking - clause cleanup-blocked-on-full-request-queue on the processor scenarios (ticks with 0..2 free slots, the
-    # full-queue family); a handler that does not return within the harness' deadline is reported, never waited for
+    # full-queue family); a handler that does not return within the harness' deadline is reported, never waited for; and
+    # "fails immediately": clause cleanup-stalled-on-full-request-queue (`stall` line of the full-queue family)
     from checks import proccommon
     keep = {k: ctx.cov.get(k) for k in ("generator_distribution", "driver_stats")}
     proccommon.run_processor(ctx, "C17", "")
@@ -144,7 +149,14 @@ def run(ctx):
                        "period and beyond with the due purge ticks; the request is repeated never / once at 1 s / after every step / once "
                        "at 6 s; every queue recorded after every step and everything that arrives identified), unknown-chain sessions "
                        "(watcher added later), random interleavings over chains / transactions / chain ids above 16 bits / ticks / clock "
-                       "advances / drains / watcher-map changes; the admin entry point SendObservationRequest (in-process service value) "
+                       "advances / drains / watcher-map changes; SCALE sessions (300 / 1100 / 2500, thorough also 6000 / 20000 DISTINCT (chain, "
+                       "transaction) pairs forwarded within a quarter of one window over three watcher queues (capacity 50 / 25 / 7) that are "
+                       "drained as they fill, one burst in six overfilling its queue by 1-2 requests that are repeated once there is room, "
+                       "purge ticks as due, repeats of earlier pairs on the way; then 21 early / middle / late / random pairs repeated right "
+                       "after the last forward and at the last instant of the first pair's window - nothing may be forwarded - and, after "
+                       "every window has lapsed and the due purge tick was handled, once more - each forwarded once - and again - suppressed; "
+                       "written as `burst` / `rdrain` lines, a lossless abbreviation of the req / drain lines: every request is followed by a "
+                       "barrier and a look at every queue, every drained item is in the file and replayed); the admin entry point SendObservationRequest (in-process service value) "
                        "on outbound queues of capacity 50, 0..3, 7 at EVERY fill level 0..cap, callers with a context without deadline and "
                        "with a one-hour deadline, plus queues filled call by call through the entry point (the calls on full queues run "
                        "concurrently under one 10 s watchdog: a call that has not returned is reported, never waited for; on a queue with "
@@ -155,11 +167,14 @@ def run(ctx):
                        "behaviour - including: nothing arrived on a watcher queue that a request of the session had not forwarded, and "
                        "at-most-once per window counted over every delivery of the session")
     ctx.cov["trusted_base"] += [
-        "harness/guardiand/c17_reobserve_verif_test.go: c17Clock (Now() set by the harness; Ticker(d) returns a ticker whose channel the harness drives, d is recorded and compared with the extracted period; every other timer of the clock is served by a benbjohnson/clock mock created at the harness' time when first armed and moved by Mock.Set on every advance), barrier-request synchronisation, Whv/Driver/Reobserve.lean (comparison + Spec ghost state, stray-arrival accounting)",
+        "harness/guardiand/c17_reobserve_verif_test.go: c17Clock (Now() set by the harness; Ticker(d) returns a ticker whose channel the harness drives, d is recorded and compared with the extracted period; every other timer of the clock is served by a benbjohnson/clock mock created at the harness' time when first armed and moved by Mock.Set on every advance), barrier-request synchronisation, Whv/Driver/Reobserve.lean (comparison + Spec ghost state, stray-arrival accounting); the `burst` / `rdrain` abbreviation of scale sessions (harness: a request goes into a burst line only if it was taken and nothing but the named chain's queue changed while it was handled, anything else is written as the req line it is; driver: expands every burst into its requests and every run into its items)",
         "the admin entry point is called on a nodePrivilegedService value holding only the outbound queue and a logger (the fields SendObservationRequest uses); the gRPC transport in front of it is not exercised",
         "checks/c17.py regexes locating the two durations in reobserve.go (the ticker period is cross-checked against the value the compiled loop passes to clock.Ticker; the window against boundary sessions at +-1 ns)",
         "generated p2p stub (only the body of p2p.Run is removed) so that cmd/guardiand compiles",
         "Go runtime semantics of select/default on buffered channels (exercised at every fill level, not modelled)",
+    ]
+    ctx.cov["trusted_base"] += [
+        "clause cleanup-stalled-on-full-request-queue (processor full-queue family) is the one verdict decided by a measured duration: the shorter of two successive handleCleanup calls with a full request queue and four retransmissions due must stay below 1.5 s (pinned code: 0 ms)",
     ]
     ctx.assumptions += [
         "non-blocking is observed, not proved, on the Go side: every send to the dispatcher, every PostObservationRequest call and every SendObservationRequest call returned within the harness timeout (10 s); the Lean theorems show the model performs a send only when the queue has room",
